@@ -1,0 +1,14 @@
+//go:build verif
+
+package object
+
+// VerifTracer, when set, receives one event per lock operation and per access
+// to the interpreter-wide symbol tables (verification builds only).
+// It must be installed before any concurrent evaluation starts.
+var VerifTracer func(ev string, key string)
+
+func verifTrace(ev string, key string) {
+	if t := VerifTracer; t != nil {
+		t(ev, key)
+	}
+}
